@@ -16,38 +16,39 @@ import (
 )
 
 type runLine struct {
-	T      string     `json:"t"` // "viol"
-	I      int        `json:"i"`
-	Seed   uint64     `json:"seed"`
-	Viol   *Violation `json:"viol,omitempty"`
-	Tape   []uint32   `json:"tape,omitempty"`
-	Sample []string   `json:"sample,omitempty"`
+	T      string       `json:"t"` // "viol"
+	I      int          `json:"i"`
+	Seed   uint64       `json:"seed"`
+	Viol   *Violation   `json:"viol,omitempty"`
+	Tape   []uint32     `json:"tape,omitempty"`
+	Sample []string     `json:"sample,omitempty"`
 	Stats  *simrt.Stats `json:"stats,omitempty"`
-	Digest uint64     `json:"digest,omitempty"`
+	Digest uint64       `json:"digest,omitempty"`
 	Corpus []CorpusItem `json:"corpus,omitempty"`
+	Sched  []string     `json:"sched,omitempty"`
 }
 
 type summary struct {
-	T         string         `json:"t"` // "summary"
-	Prop      string         `json:"prop"`
-	From, To  int            `json:"from"`
-	Next      int            `json:"next"` // first run index not executed
-	Runs      int            `json:"runs"`
-	Ops       int            `json:"ops"`
-	Judged    int            `json:"judged"`
-	Steps     int64          `json:"steps"`
-	Switches  int64          `json:"switches"`
-	Aborted   int            `json:"aborted"`
-	Probes    map[string]int `json:"probes"`
-	Faults    map[string]int `json:"faults"`
-	SwitchSig []uint64       `json:"switch_sigs"`
-	Cases     []uint64       `json:"cases"`
-	Samples   [][]string     `json:"samples"`
-	Strategy  map[string]int `json:"strategies"`
+	T         string            `json:"t"` // "summary"
+	Prop      string            `json:"prop"`
+	From, To  int               `json:"from"`
+	Next      int               `json:"next"` // first run index not executed
+	Runs      int               `json:"runs"`
+	Ops       int               `json:"ops"`
+	Judged    int               `json:"judged"`
+	Steps     int64             `json:"steps"`
+	Switches  int64             `json:"switches"`
+	Aborted   int               `json:"aborted"`
+	Probes    map[string]int    `json:"probes"`
+	Faults    map[string]int    `json:"faults"`
+	SwitchSig []uint64          `json:"switch_sigs"`
+	Cases     []uint64          `json:"cases"`
+	Samples   [][]string        `json:"samples"`
+	Strategy  map[string]int    `json:"strategies"`
 	Digests   map[string]uint64 `json:"digests,omitempty"`
-	Tainted   bool           `json:"tainted"`
-	Sites     int            `json:"sites"`
-	Race      bool           `json:"race"`
+	Tainted   bool              `json:"tainted"`
+	Sites     int               `json:"sites"`
+	Race      bool              `json:"race"`
 }
 
 func splitmix(x uint64) uint64 {
@@ -95,6 +96,7 @@ func main() {
 	nsamples := flag.Int("samples", 2, "runs to write out in the summary")
 	digests := flag.Bool("digests", false, "emit per-run digests in the summary")
 	tierF := flag.String("tier", "quick", "quick|thorough")
+	traceRun := flag.Int("trace-run", -1, "debug: print the schedule trace of this run index to stderr")
 	oneshotItem := flag.Int("oneshot-item", -1, "C19: execute this corpus item as the first library call of the process and print its outcome")
 	emitC := flag.Bool("emit-corpus", false, "C19: print the corpus")
 	expectFile := flag.String("expect", "", "C19: JSON array of fresh-process outcomes, one per corpus item")
@@ -133,11 +135,12 @@ func main() {
 		}
 		simrt.ResetRunStats()
 		simrt.SetReplay(rf.Tape)
+		simrt.TraceEnable(true)
 		fmt.Fprintf(out, "B 0\n")
 		out.Flush()
 		res := dispatch(*prop)
 		tp, _, _ := simrt.Tape()
-		enc.Encode(runLine{T: "replayed", I: 0, Viol: res.Violation, Tape: tp, Sample: res.Sample, Stats: &res.Stats, Digest: res.Stats.Digest, Corpus: res.Corpus})
+		enc.Encode(runLine{T: "replayed", I: 0, Viol: res.Violation, Tape: tp, Sample: res.Sample, Stats: &res.Stats, Digest: res.Stats.Digest, Corpus: res.Corpus, Sched: simrt.TraceLines(400)})
 		return
 	}
 
@@ -162,7 +165,13 @@ func main() {
 		rs := runSeed(*seed, *prop, i)
 		simrt.ResetRunStats()
 		simrt.Seed(rs)
+		simrt.TraceEnable(i == *traceRun)
 		res := dispatch(*prop)
+		if i == *traceRun {
+			for _, l := range simrt.TraceLines(100000) {
+				fmt.Fprintln(os.Stderr, l)
+			}
+		}
 		sum.Runs++
 		sum.Ops += res.Ops
 		sum.Judged += res.Judged
